@@ -14,16 +14,30 @@ from props import _util
 from props import c05
 
 ID = 'C14'
-LEAN_TARGETS = ['TexSoupProofs.Properties.C14']
+LEAN_TARGETS = ['TexSoupProofs.Properties.C14', 'TexSoupProofs.Properties.C14Grammar']
 THEOREMS = ['TexSoup.C14.' + n for n in (
     'rename_splice_cmd', 'rename_splice_env', 'setString_splice', 'setArgs_splice', 'node_edit_preserves_others',
-    'rename_preserves_below', 'rename_search', 'rename_count')]
-PARTIAL = ['"re-parsing the new text yields a tree that shows the same change" is explored by the oracle only (key '
-           'reparse-differs), not proved (it needs the completeness of the parser), and only for edits whose result is itself '
-           'a document of the grammar: the original tree is a fixpoint of str/parse, old and new names are plain identifiers '
-           'without a special role in the reader (not \\item, no fixed signature, no math/verbatim environment name, no sizing '
-           'prefix), new strings are letters, digits and blanks with at least one non-blank, the new argument list is one that the reader reads back '
-           '([..]*{..}*[..]*{..}* after a command, [..]*{..}* after \\begin{name})']
+    'rename_preserves_below', 'rename_search', 'rename_count')] + ['TexSoup.C14G.' + n for n in (
+    'rename_keeps_wf', 'renameCmds_keeps_wf', 'renameEnvs_keeps_wf', 'tree_of_renamed', 'rename_reparse',
+    'rename_command_reparse', 'rename_environment_reparse', 'rename_reparse_of_source',
+    'rename_command_reparse_of_source', 'rename_environment_reparse_of_source')] + [
+    'TexSoup.Gram.WFD_rename', 'TexSoup.Gram.treeD_rename', 'TexSoup.Gram.separated_squeeze_rename',
+    'TexSoup.NVar.separated', 'TexSoup.applyEdit_rename_eq']
+PARTIAL = ['"re-parsing the new text yields a tree that shows the same change": PROVED for renaming a command or an '
+           'environment of a document of the grammar (C14G.rename_command_reparse_of_source / '
+           'rename_environment_reparse_of_source, both tolerance modes: the text of applyEdit (treeD d) (.rename p new) parses '
+           'to a tree of the same shape and text), under decidable side conditions: d is well-formed (Gram.WFD) and its tokens '
+           'are a tokenizer output without a bare sizing prefix, environment names are written without blanks, the node is the '
+           'only one with its name at its position, old/new are command names with the same role (sameRole: not item, both or '
+           'neither end/begin, same signature, both or neither special) and new is no sizing prefix, resp. environment names '
+           'with the same role (envRole: new without surrounding blanks, both or neither math environments, neither in the skip '
+           'list; old starts with a letter, new can stand as one text token)',
+           'for node.string = s and node.args = .. the re-parse clause is explored by the oracle only (key reparse-differs), '
+           'and only for edits whose result is itself a document of the grammar: the original tree is a fixpoint of str/parse, '
+           'names are plain identifiers without a special role in the reader, new strings are letters, digits and blanks with at '
+           'least one non-blank, the new argument list is one that the reader reads back '
+           '([..]*{..}*[..]*{..}* after a command, [..]*{..}* after \\begin{name}); the oracle also checks the re-parse '
+           'clause for renames on the implementation under the same restriction']
 TRUSTED = ['hand-written model of the node edits (lean/TexSoupModel/Edit.lean), tied to TexSoup/data.py by the '
            'correspondence run only',
            'correspondence harness (props/c14.py, lib_edit.py): structural paths, node acquisition through .contents by '
